@@ -400,7 +400,58 @@ def r12_7(ctx: Ctx, rule: str = "R12.7") -> None:
     ctx.floor(rule, n, 2, "Worker.archive calls in write/_writef")
 
 
+def r12_8(ctx: Ctx, rule: str = "R12.8") -> None:
+    """a call does not spoil the next one: testzip() decodes every folder, which uses the cached decoders up and moves the handle; before it
+    returns (or raises) it puts the session back (`reset()` / a fresh worker and `_reset_decompressor()` in a `finally` around the decode), so that
+    `testzip(); extract(T)` and `testzip(); extractall()` behave like calls on a fresh session."""
+    f = shared.szf(ctx, "testzip")
+    ex = [c for c in q.calls(f) if attr_tail(c) == "extract" and "worker" in norm(c.func.value)]
+    ctx.floor(rule, len(ex), 1, "decode pass in testzip")
+    ok = False
+    for t in [t for t in walk(f.node) if isinstance(t, ast.Try) and any(c in list(ast.walk(st)) for st in t.body for c in ex)]:
+        fin = [x for st in t.finalbody for x in ast.walk(st) if isinstance(x, ast.Call) and attr_tail(x) in ("reset", "_reset_decompressor")]
+        ok = ok or bool(fin)
+    ctx.check(ok, rule, f, ex[0], "testzip() leaves the session as a fresh one (reset in a finally)",
+              "testzip() leaves the decoders it used up in the folders' caches: `testzip(); extract(targets=T)` (and `extractall()`) raise 'Unexpected end of data' naming an unselected "
+              "member and leave an empty file under a selected member's name, although each call works on a fresh session", construct="testzip leaves used decoders")
+
+
+def r12_9(ctx: Ctx, rule: str = "R12.9") -> None:
+    """reading never changes the archive: extraction into the archive's own directory of a member that is named like the archive would open
+    the archive for writing.  Every registration of a real output path in _extract is dominated by a test that compares that path with the open
+    archive (an identity test such as os.path.samestat, directly or through a method of the class) and raises when they are the same file."""
+    f = shared.szf(ctx, "_extract")
+    cfg = cfg_of(f.node)
+    regs = [c for c in q.calls(f) if attr_tail(c) == "register_filelike" and len(c.args) > 1 and isinstance(c.args[1], ast.Name)]
+    ctx.floor(rule, len(regs), 2, "registrations of real output paths in _extract")
+    cls = ctx.prog.cls("SevenZipFile", "py7zr")
+
+    def identity(x: ast.AST) -> bool:
+        if not isinstance(x, ast.Call):
+            return False
+        if attr_tail(x) in ("samefile", "samestat", "sameopenfile"):
+            return True
+        if isinstance(x.func, ast.Attribute) and norm(x.func.value) == "self":
+            m = ctx.prog.method(cls, x.func.attr)
+            return m is not None and any(isinstance(y, ast.Call) and attr_tail(y) in ("samefile", "samestat", "sameopenfile") for y in walk(m.node))
+        return False
+    guards = []
+    for t in cfg.nodes:
+        if t.kind == "test" and any(identity(x) for x in ast.walk(t.ast)):
+            te = next((e for e in t.succ if e.kind == "true"), None)
+            if te is not None and q.branch_always_raises(cfg, te):
+                guards.append(t)
+    for c in regs:
+        path = c.args[1].id
+        ok = any(cfg.dominates(g, q.node_for(f, c)) and any(isinstance(y, ast.Name) and y.id == path for y in ast.walk(g.ast)) for g in guards)
+        ctx.check(ok, rule, f, c, "an output path is registered only after it was compared with the open archive",
+                  f"_extract registers `{path}` for writing without asking whether it is the archive that is being read: `extractall(path=<directory of the archive>)` of an archive that "
+                  "holds a member named like itself overwrites the archive in a mode-'r' session and returns normally", construct="output path may be the archive")
+
+
 def run(ctx: Ctx) -> None:
+    r12_9(ctx)
+    r12_8(ctx)
     from . import c06 as _c06x
     _c06x.dispatch_forwards_skip(ctx, "R12.4")
     closure = shared.read_closure(ctx)
